@@ -53,7 +53,13 @@ func C01(e *Env) {
 		"interactions of the alias table with user-chosen aliases (C14)")
 }
 
-var identifierPositions = func(e *Env, rule string) {}
+// identifierPositions: R01.5 — the holes the templates print without export in identifier or path
+// positions (package, container type, constructor, getter, import paths) only admit identifiers,
+// resp. quote-free paths: decided by the language lemmas of C11 on the bound regular expressions.
+var identifierPositions = func(e *Env, rule string) {
+	e.R.Rule("R11.3", "R01.5: every value printed raw into an identifier or import-path position is admitted by a grammar whose language contains only Go identifiers, resp. strings without whitespace, quotes or backslashes (language lemmas shared with C11)", 20)
+	c11Lemmas(e, regexVars(e))
+}
 
 // skelTypeRules: R01.2 — zero parse / type errors for every skeleton in both modes.
 func skelTypeRules(e *Env, b *skelBuilder, sks []*skeleton, rule string) {
